@@ -381,11 +381,14 @@ func staleClients(oldText, newText string, newCfg *config.Config) string {
 }
 
 // failedReload: a long-running process reloads old -> new and the LAST reload callback fails (in a sidecar that is the
-// Prometheus reload; the scrape manager has switched by then).  Whatever hash the process reports afterwards must be
-// the hash of the content its scrape clients really run: "in sync" means running the coordinator's configuration.
+// Prometheus reload; the scrape manager has switched by then).  The process does not run the new content - its
+// Prometheus does not - so it must not report the new content's hash: "reported in sync exactly when it runs the
+// coordinator's configuration".  Reporting the old hash is right (the coordinator then sends the content again and
+// every callback runs again); the scrape clients are not compared in that state, it is a partially applied one that
+// the next push repairs.
 func failedReload(oldText, newText, oldHash, newHash string, oldCfg, newCfg *config.Config) string {
-	long, freshOld, freshNew := kscrape.New(true, quiet), kscrape.New(true, quiet), kscrape.New(true, quiet)
-	cm, cmO, cmN := prom.NewConfigManager(), prom.NewConfigManager(), prom.NewConfigManager()
+	long := kscrape.New(true, quiet)
+	cm := prom.NewConfigManager()
 	fail := false
 	cm.AddReloadCallbacks(long.ApplyConfig, func(*prom.ConfigInfo) error {
 		if fail {
@@ -393,40 +396,45 @@ func failedReload(oldText, newText, oldHash, newHash string, oldCfg, newCfg *con
 		}
 		return nil
 	})
-	cmO.AddReloadCallbacks(freshOld.ApplyConfig)
-	cmN.AddReloadCallbacks(freshNew.ApplyConfig)
-	if cm.ReloadFromRaw([]byte(oldText)) != nil || cmO.ReloadFromRaw([]byte(oldText)) != nil || cmN.ReloadFromRaw([]byte(newText)) != nil {
+	if cm.ReloadFromRaw([]byte(oldText)) != nil {
 		return ""
 	}
 	fail = true
 	if cm.ReloadFromRaw([]byte(newText)) == nil {
 		return ""
 	}
-	reported := cm.ConfigInfo().ConfigHash
-	var ref *kscrape.Manager
-	var refCfg *config.Config
-	switch reported {
-	case newHash:
-		ref, refCfg = freshNew, newCfg
+	switch reported := cm.ConfigInfo().ConfigHash; reported {
 	case oldHash:
-		ref, refCfg = freshOld, oldCfg
+	case newHash:
+		return "after a reload whose last callback (the reload of Prometheus) failed the process reports the hash of the new content, which its Prometheus does not run: it looks in sync and is never sent the content again"
 	default:
 		return fmt.Sprintf("after a reload whose last callback failed the process reports hash %s, which is neither the old (%s) nor the new (%s) content's", reported, oldHash, newHash)
 	}
-	for _, sc := range refCfg.ScrapeConfigs {
+	// the next push of the same content succeeds and is reported
+	fail = false
+	if err := cm.ReloadFromRaw([]byte(newText)); err != nil {
+		return fmt.Sprintf("the same content pushed again after the failed reload is rejected: %v", err)
+	}
+	if h := cm.ConfigInfo().ConfigHash; h != newHash {
+		return fmt.Sprintf("after the content was pushed again and every callback succeeded the process reports %s, not the new content's hash %s", h, newHash)
+	}
+	for _, sc := range newCfg.ScrapeConfigs {
 		// (an oauth2 client asks the identity provider for a token first; there is none to ask here)
 		if sc.HTTPClientConfig.ProxyURL.URL != nil || sc.HTTPClientConfig.OAuth2 != nil {
 			continue
 		}
-		l, f := presented(long, sc.JobName), presented(ref, sc.JobName)
-		if l != f {
-			which := "old"
-			if reported == newHash {
-				which = "new"
-			}
-			return fmt.Sprintf("after a reload whose last callback failed the process reports the hash of the %s content, but the scrape client of job %q presents %s where a process running that content presents %s", which, sc.JobName, l, f)
+		fresh := kscrape.New(true, quiet)
+		cmN := prom.NewConfigManager()
+		cmN.AddReloadCallbacks(fresh.ApplyConfig)
+		if cmN.ReloadFromRaw([]byte(newText)) != nil {
+			return ""
 		}
+		if l, f := presented(long, sc.JobName), presented(fresh, sc.JobName); l != f {
+			return fmt.Sprintf("after the content was pushed again the scrape client of job %q presents %s where a process running that content presents %s", sc.JobName, l, f)
+		}
+		break
 	}
+	_ = oldCfg
 	return ""
 }
 
